@@ -828,4 +828,178 @@ theorem pci_rem {limit : Nat} {c : Ctx} {addrs : List Addr} {s : Store} {X : Lis
 /-- RESTART: the store is unchanged -/
 theorem pci_restart {c : Ctx} {addrs : List Addr} {s : Store} {X : List Block} (H : PCI c addrs s X) : PCI c addrs s X := H
 
+-- ------------------------------------------------------------------ the history level
+
+/-- the invariant reads the pending records and the pending-credit bucket only -/
+theorem PCI.congr {c : Ctx} {addrs : List Addr} {s s' : Store} {X : List Block} (H : PCI c addrs s X)
+    (h1 : s'.pending = s.pending) (h2 : s'.pendCred = s.pendCred) : PCI c addrs s' X :=
+  ⟨fun id t hg => H.keyId id t (by rw [← h1]; exact hg),
+   fun id j cr hg hs => by rw [h1]; exact H.owned id j cr (by rw [← h2]; exact hg) hs,
+   fun e he => H.pendOK e (by rw [← h2]; exact he), by rw [h2]; exact H.nodup⟩
+
+/-- a tip notification whose block extends the follower's best block is ONE `filterBlock` on the store's ready set -/
+theorem processBlock_extend (c : Ctx) (s : Store) (v : Vol) (b : Block) (hprev : b.prev = v.best.hash)
+    (hok : (processBlock c s v b).2.2 = true) :
+    ∃ conf, filterBlock c s (readyWallets s c.wallets) b = .ok ((processBlock c s v b).1, conf) := by
+  unfold processBlock at hok ⊢
+  simp only [hprev, if_true, bind, Except.bind] at hok ⊢
+  cases hf : filterBlock c s (readyWallets s c.wallets) b with
+  | error e => rw [hf] at hok; simp at hok
+  | ok r => exact ⟨r.2, rfl⟩
+
+/-- a removal step (finishing or not) changes the pending side as its RemoveRelevantTx does -/
+theorem removeStep_pendSide {limit : Nat} {c : Ctx} {w : Wid} {addrs : List Addr} {s : Store} {o : StepOut}
+    (h : removeStep limit c w addrs s = some o) :
+    ∃ o1, removeRelevantTx limit c s addrs = some o1 ∧ o.s.pending = o1.s.pending ∧ o.s.pendCred = o1.s.pendCred := by
+  unfold removeStep at h
+  cases hr : removeRelevantTx limit c s addrs with
+  | none => rw [hr] at h; cases h
+  | some o1 =>
+    rw [hr] at h
+    simp only at h
+    split at h
+    · cases h; exact ⟨_, rfl, rfl, rfl⟩
+    · cases h; exact ⟨_, rfl, rfl, rfl⟩
+
+/-- DOMAIN of one event at a state of an interleaved history:
+    `recv t`     the delivered transaction is not on the followed chain, and if its id is pending it is that transaction;
+    `notify n b` the announced chain is the followed chain extended by `b`, `b` extends the follower's best block, and
+                 the hypotheses of `pci_connect` at that state (ready set = the store's);
+    `rem`, `restart`  nothing. -/
+def EvDom (c : Ctx) (addrs : List Addr) (x : ISt) : IEv → Prop
+  | .rem => True
+  | .restart _ => True
+  | .recv t => t.id ∉ idsOf (occs x.node.chain) ∧ ∀ t0, AMap.get x.s.pending t.id = some t0 → t0 = t
+  | .notify n b => n.chain = x.node.chain ++ [b] ∧ b.prev = x.v.best.hash ∧
+      (∀ a w' ch, AMap.get c.own a = some (w', ch) → addrs.contains a = false →
+        (readyWallets x.s c.wallets).contains w' = true) ∧
+      (∀ t' ∈ b.txs, ∀ t, AMap.get x.s.pending t'.id = some t → t = t') ∧
+      (∀ id, AMap.get x.s.txrecs (id, ⟨b.height, b.id⟩) = none) ∧
+      (b.txs.map (·.id)).Nodup
+
+/-- the domain along a history (each event at the state it happens in) -/
+def DomP (limit : Nat) (c : Ctx) (w : Wid) (addrs : List Addr) : ISt → List IEv → Prop
+  | _, [] => True
+  | x, ev :: evs => EvDom c addrs x ev ∧
+    match istep limit c w addrs x ev with
+    | none => True
+    | some x' => DomP limit c w addrs x' evs
+
+/-- ONE EVENT keeps the invariant (on the chain the follower was last told about) -/
+theorem pci_istep {limit : Nat} {c : Ctx} {w : Wid} {addrs : List Addr} {x x' : ISt} {ev : IEv}
+    (H : PCI c addrs x.s x.node.chain) (D : EvDom c addrs x ev) (h : istep limit c w addrs x ev = some x') :
+    PCI c addrs x'.s x'.node.chain := by
+  cases ev with
+  | rem =>
+    simp only [istep] at h
+    split at h
+    · cases h
+    · split at h
+      · cases h
+      · rename_i o ho
+        injection h with h; rw [← h]
+        obtain ⟨o1, hr, e1, e2⟩ := removeStep_pendSide ho
+        have := pci_rem (H.own (c' := { c with node := x.node }) rfl) hr
+        exact (this.congr e1 e2).own rfl
+  | notify n b =>
+    obtain ⟨hch, hprev, hready, hsame, hfresh, hbnd⟩ := D
+    simp only [istep] at h
+    split at h
+    · cases h
+    · split at h
+      · rename_i hok
+        injection h with h; rw [← h]
+        obtain ⟨conf, hf⟩ := processBlock_extend { c with node := n } x.s x.v b hprev hok
+        show PCI c addrs (processBlock { c with node := n } x.s x.v b).1 n.chain
+        rw [hch]
+        exact (pci_connect (H.own (c' := { c with node := n }) rfl) hf hready hsame hfresh hbnd).own rfl
+      · cases h
+  | recv t =>
+    simp only [istep] at h
+    split at h
+    · cases h
+    · split at h
+      · injection h with h; rw [← h]
+        exact (pci_recv x.v t (H.own (c' := { c with node := x.node }) rfl) D.1 D.2).own rfl
+      · cases h
+  | restart v =>
+    simp only [istep] at h
+    split at h
+    · cases h
+    · injection h with h; rw [← h]; exact H
+
+theorem pci_irun {limit : Nat} {c : Ctx} {w : Wid} {addrs : List Addr} :
+    ∀ (evs : List IEv) (x x' : ISt), PCI c addrs x.s x.node.chain → DomP limit c w addrs x evs →
+      irun limit c w addrs x evs = some x' → PCI c addrs x'.s x'.node.chain := by
+  intro evs
+  induction evs with
+  | nil => intro x x' H _ h; simp only [irun] at h; injection h with h; rw [← h]; exact H
+  | cons ev evs ih =>
+    intro x x' H D h
+    simp only [irun] at h
+    obtain ⟨D1, D2⟩ := D
+    cases hs : istep limit c w addrs x ev with
+    | none => rw [hs] at h; cases h
+    | some x1 =>
+      rw [hs] at h D2
+      exact ih x1 x' (pci_istep H D1 hs) D2 h
+
+theorem domP_prefix {limit : Nat} {c : Ctx} {w : Wid} {addrs : List Addr} :
+    ∀ (pre suf : List IEv) (x : ISt), DomP limit c w addrs x (pre ++ suf) → DomP limit c w addrs x pre := by
+  intro pre
+  induction pre with
+  | nil => intro _ _ _; trivial
+  | cons ev pre ih =>
+    intro suf x D
+    obtain ⟨D1, D2⟩ := D
+    refine ⟨D1, ?_⟩
+    cases hs : istep limit c w addrs x ev with
+    | none => trivial
+    | some x1 => rw [hs] at D2; exact ih suf x1 D2
+
+/-- **THE PENDING-SIDE CLAUSE ALONG INTERLEAVED HISTORIES**: from a state satisfying `PCI`, inside the domain, EVERY
+    state of the run (the state after every prefix of the history) satisfies `PCI`, in particular `PendOK` for the
+    chain the follower was last told about — the hypothesis the removal steps need -/
+theorem pendOK_run {limit : Nat} {c : Ctx} {w : Wid} {addrs : List Addr} {x0 : ISt} {evs : List IEv}
+    (H0 : PCI c addrs x0.s x0.node.chain) (D : DomP limit c w addrs x0 evs) :
+    ∀ (pre suf : List IEv) (y : ISt), evs = pre ++ suf → irun limit c w addrs x0 pre = some y →
+      PCI c addrs y.s y.node.chain ∧ PendOK addrs y.s y.node.chain := by
+  intro pre suf y he hr
+  have := pci_irun pre x0 y H0 (domP_prefix pre suf x0 (he ▸ D)) hr
+  exact ⟨this, this.pendOK⟩
+
+-- ------------------------------------------------------------------ the start: C09's invariant, the removal flag
+
+/-- C09's invariant gives `PCI`, for any set of script hashes: the pending credits are the owned outputs of the
+    specification's pending transactions (`CredRel.csound`), which are the pending records (`PendRel.ids`) and are
+    not on the wallet's chain (`Consistent`).  The distinctness of the bucket's keys is not part of C09's relations
+    (they speak about lookups): it is asked for. -/
+theorem pci_of_hinvc {rank : TxId → Nat} {E : HEnv} {w0 : HW} (H : HInvC rank E w0)
+    (hn : KeysNodup w0.s.pendCred) (addrs : List Addr) : PCI (E.ctx w0.node) addrs w0.s w0.sp.chain := by
+  refine ⟨keyId_of_rel H.inv.rel, ?_, fun e he _ => MW.Lemmas.RemoveReach.pendOff_of_hinvc H e he, hn⟩
+  intro id j cr hg _
+  obtain ⟨t, ht, hid, o, ho, hown, _, _, hsh⟩ := H.cred.csound id j cr hg
+  obtain ⟨w', ch, hw⟩ := (ownedOut_iff_ownerOf E.env o).1 hown
+  unfold ownerOf at hw
+  split at hw
+  · cases hw
+  · rename_i hraw
+    exact ⟨t, o, w', ch, (H.inv.rel.ids id t).2 ⟨ht, hid⟩, ho, hsh.symm, hraw, hw⟩
+
+/-- setting the removal flag (`removeWallet`: the status bucket only) keeps the invariant, whatever the outcome -/
+theorem pci_flag {c : Ctx} {addrs : List Addr} {s : Store} {X : List Block} (H : PCI c addrs s X)
+    (queueLen : Nat) (keystores : List Wid) (passOk : Bool) (w : Wid) :
+    PCI c addrs (removeWallet queueLen keystores passOk s w).2 X := by
+  apply H.congr
+  · unfold removeWallet; repeat' split
+    all_goals rfl
+  · unfold removeWallet; repeat' split
+    all_goals rfl
+
+/-- … so the invariant holds where every removal starts in a state reached by a C09 history -/
+theorem pci_start {rank : TxId → Nat} {E : HEnv} {w0 : HW} (H : HInvC rank E w0) (hn : KeysNodup w0.s.pendCred)
+    (addrs : List Addr) (queueLen : Nat) (keystores : List Wid) (passOk : Bool) (w : Wid) :
+    PCI (E.ctx w0.node) addrs (removeWallet queueLen keystores passOk w0.s w).2 w0.sp.chain :=
+  pci_flag (pci_of_hinvc H hn addrs) queueLen keystores passOk w
+
 end MW.Lemmas.RemovePend
